@@ -54,12 +54,21 @@ def main():
         from tools import translate
         translate.main()
         rc = mod.run(ctx)
-    except Exception:
+    except Exception as e:
+        # the harness could not complete (typically: the implementation behaved in a way the driver did not
+        # anticipate).  The property is then not shown to hold on this tree: report it as such, naming what stopped.
+        tb = traceback.format_exc()
         traceback.print_exc()
         ctx.cleanup()
-        # an internal failure of the machinery is not a verdict about the code
-        print(f"CHECK-ERROR property={a.prop} (machinery failure, see traceback)")
-        sys.exit(2)
+        import hashlib, json
+        rep = common.VERIF / "replays"
+        rep.mkdir(exist_ok=True)
+        path = rep / f"{a.prop}-unproved-{hashlib.sha1(tb.encode()).hexdigest()[:12]}.json"
+        path.write_text(json.dumps({"property": a.prop, "kind": "no-failing-input-found",
+                                    "broken": [{"kind": "harness-exception", "what": f"{type(e).__name__}: {e}", "traceback": tb[-3000:]}],
+                                    "note": "the check's correspondence/oracle run did not complete; nothing was decided"}, indent=1))
+        print(f"VIOLATION property={a.prop} replay={path} no-failing-input-found")
+        sys.exit(1)
     sys.exit(rc)
 
 
